@@ -12,3 +12,5 @@ import VibeProof.Props.C07
 #print axioms VibeProof.C07.C07_group_content
 #print axioms VibeProof.C07.C07_group_key_iff
 #print axioms VibeProof.C07.C07_group_sizes
+#print axioms VibeProof.C07.C07_distinct
+#print axioms VibeProof.C07.C07_combine
